@@ -16,6 +16,19 @@ type Atom struct {
 	Deps []ssa.Value // instructions on whose (re)execution the atom's meaning depends
 	Phi  *ssa.Phi    // variable atom standing for a boolean phi
 	Ev   bool        // synthetic event variable
+	// structure, for rule-side classification
+	Kind string    // "eq" (X == Y), "lt" (X < Y), "len0" (len(X)==0), "mapok" (X map, Y key), "isa", "val" (X), "phi", "ev"
+	X, Y ssa.Value // operands as SSA values of the function the atom was created in
+	// Res maps a value of an inlined callee to the caller-level value it is bound to (identity at top level)
+	Res func(ssa.Value) ssa.Value
+}
+
+// Resolve maps v through parameter bindings of inlined callees up to the analysed function.
+func (a *Atom) Resolve(v ssa.Value) ssa.Value {
+	if a.Res == nil || v == nil {
+		return v
+	}
+	return a.Res(v)
 }
 
 // Analysis holds the atom universe and condition translation for one function.
@@ -30,6 +43,7 @@ type Analysis struct {
 	Inline func(*ssa.Function) bool
 	depth  int
 	loopHd map[*ssa.BasicBlock]bool
+	res    func(ssa.Value) ssa.Value // nil at top level
 }
 
 func NewAnalysis(fn *ssa.Function, isPure, inline func(*ssa.Function) bool) *Analysis {
@@ -60,8 +74,22 @@ func (A *Analysis) atom(key string, deps []ssa.Value) int {
 		return i
 	}
 	A.index[key] = len(A.Atoms)
-	A.Atoms = append(A.Atoms, &Atom{Key: key, Deps: deps})
+	A.Atoms = append(A.Atoms, &Atom{Key: key, Deps: deps, Res: A.res})
 	return len(A.Atoms) - 1
+}
+
+func (A *Analysis) structAtom(f *F, kind string, x, y ssa.Value) *F {
+	g := f
+	if g.Op == '!' {
+		g = g.Kids[0]
+	}
+	if g.Op == 'a' {
+		at := A.Atoms[g.Atom]
+		if at.Kind == "" {
+			at.Kind, at.X, at.Y = kind, x, y
+		}
+	}
+	return f
 }
 
 // AtomIndex returns the index of the atom with the given key, or -1.
@@ -123,7 +151,7 @@ func constInt(v ssa.Value) (int64, bool) {
 }
 
 func (A *Analysis) symAtom(v ssa.Value) *F {
-	return AtomF(A.atom(A.Sym.Of(v), A.Sym.Deps(v)))
+	return A.structAtom(AtomF(A.atom(A.Sym.Of(v), A.Sym.Deps(v))), "val", v, nil)
 }
 
 func (A *Analysis) keyAtom(key string, vs ...ssa.Value) *F {
@@ -161,6 +189,7 @@ func (A *Analysis) cond1(v ssa.Value, pc pathCtx) *F {
 		}
 		i := A.atom(A.Sym.Of(x), []ssa.Value{x})
 		A.Atoms[i].Phi = x
+		A.Atoms[i].Kind, A.Atoms[i].X = "phi", x
 		return AtomF(i)
 	case *ssa.BinOp:
 		return A.binop(x, pc)
@@ -168,11 +197,11 @@ func (A *Analysis) cond1(v ssa.Value, pc pathCtx) *F {
 		switch t := x.Tuple.(type) {
 		case *ssa.Lookup:
 			if t.CommaOk && x.Index == 1 {
-				return A.keyAtom("mapok("+A.Sym.Of(t.X)+","+A.Sym.Of(t.Index)+")", t.X, t.Index)
+				return A.structAtom(A.keyAtom("mapok("+A.Sym.Of(t.X)+","+A.Sym.Of(t.Index)+")", t.X, t.Index), "mapok", t.X, t.Index)
 			}
 		case *ssa.TypeAssert:
 			if t.CommaOk && x.Index == 1 {
-				return A.keyAtom("isa["+t.AssertedType.String()+"]("+A.Sym.Of(t.X)+")", t.X)
+				return A.structAtom(A.keyAtom("isa["+t.AssertedType.String()+"]("+A.Sym.Of(t.X)+")", t.X), "isa", t.X, nil)
 			}
 		}
 		return A.symAtom(v)
@@ -200,13 +229,15 @@ func (A *Analysis) binop(x *ssa.BinOp, pc pathCtx) *F {
 			return Or(And(fa, fb), And(Not(fa), Not(fb)))
 		}
 		l, r := sa, sb
+		xa, xb := a, b
 		if aConst && !bConst || (!aConst && !bConst && l > r) {
 			l, r = r, l
+			xa, xb = b, a
 		}
-		return mk(l, "==", r)
+		return A.structAtom(mk(l, "==", r), "eq", xa, xb)
 	}
 	lenZero := func(lenv ssa.Value) *F {
-		return A.keyAtom("("+A.Sym.Of(lenv)+" == 0)", lenv)
+		return A.structAtom(A.keyAtom("("+A.Sym.Of(lenv)+" == 0)", lenv), "len0", lenv.(*ssa.Call).Common().Args[0], nil)
 	}
 	lt := func(l, r ssa.Value) *F { // l < r
 		if isLen(l) {
@@ -229,7 +260,7 @@ func (A *Analysis) binop(x *ssa.BinOp, pc pathCtx) *F {
 				}
 			}
 		}
-		return A.keyAtom("("+A.Sym.Of(l)+" < "+A.Sym.Of(r)+")", l, r)
+		return A.structAtom(A.keyAtom("("+A.Sym.Of(l)+" < "+A.Sym.Of(r)+")", l, r), "lt", l, r)
 	}
 	switch x.Op {
 	case token.EQL:
@@ -370,6 +401,21 @@ func (A *Analysis) inlineCall(call *ssa.Call, fn *ssa.Function) *F {
 	sub := NewAnalysis(fn, A.IsPure, A.Inline)
 	sub.depth = A.depth + 1
 	sub.Atoms, sub.index = A.Atoms, A.index
+	parentRes := A.res
+	bind := map[ssa.Value]ssa.Value{}
+	for i, p := range fn.Params {
+		arg := call.Common().Args[i]
+		if parentRes != nil {
+			arg = parentRes(arg)
+		}
+		bind[p] = arg
+	}
+	sub.res = func(v ssa.Value) ssa.Value {
+		if b, ok := bind[v]; ok {
+			return b
+		}
+		return v
+	}
 	var argDeps []ssa.Value
 	for i, p := range fn.Params {
 		arg := call.Common().Args[i]
@@ -438,6 +484,9 @@ type Query struct {
 	// CutEdge, if set, removes edges from the region (b -> b.Succs[k]).
 	CutEdge func(b *ssa.BasicBlock, k int) bool
 	Hooks   map[ssa.Instruction]func(a uint32) []uint32
+	// EdgeHook, if set, transforms assignments flowing along edge b -> b.Succs[k] (after the edge
+	// condition was applied, before phi assignment).  Return nil for "no change".
+	EdgeHook func(b *ssa.BasicBlock, k int) func(a uint32) []uint32
 	In      map[*ssa.BasicBlock][]uint64
 	nWords  int
 	Iter    int
@@ -626,6 +675,17 @@ func (q *Query) RunFrom(entries map[*ssa.BasicBlock][]uint64) {
 			if !any {
 				continue
 			}
+			if q.EdgeHook != nil {
+				if h := q.EdgeHook(b, k); h != nil {
+					out2 := make([]uint64, len(st))
+					q.forEach(st, func(a uint32) {
+						for _, c := range h(a) {
+							out2[c/64] |= 1 << (c % 64)
+						}
+					})
+					st = out2
+				}
+			}
 			if succ.Dominates(b) { // back edge: forget atoms about values redefined in the loop
 				for _, t := range q.Tracked {
 					at := q.A.Atoms[t]
@@ -736,7 +796,7 @@ func (q *Query) assignPhis(pred, succ *ssa.BasicBlock, s []uint64) []uint64 {
 }
 
 func (q *Query) applyHooks(b *ssa.BasicBlock, s []uint64, until ssa.Instruction) []uint64 {
-	if len(q.Hooks) == 0 {
+	if len(q.Hooks) == 0 || s == nil {
 		return s
 	}
 	for _, in := range b.Instrs {
@@ -825,4 +885,36 @@ func Empty(s []uint64) bool {
 		}
 	}
 	return true
+}
+
+// SetBit / ClearBit / Bit helpers for hooks.
+func (q *Query) Bit(a uint32, atom int) bool { return a>>uint(q.pos[atom])&1 == 1 }
+func (q *Query) With(a uint32, atom int, v bool) uint32 {
+	if v {
+		return a | 1<<uint(q.pos[atom])
+	}
+	return a &^ (1 << uint(q.pos[atom]))
+}
+
+// EdgeState returns the state flowing along edge b -> b.Succs[k] (edge condition applied; no hooks,
+// no phi assignment).
+func (q *Query) EdgeState(b *ssa.BasicBlock, k int) []uint64 {
+	s := q.StateAtEnd(b)
+	if s == nil {
+		return nil
+	}
+	return q.Filter(s, q.A.EdgeCond(b, k))
+}
+
+// InitWith returns the full state restricted to assignments where the given atoms have the given values.
+func (q *Query) InitWith(vals map[int]bool) []uint64 {
+	s := q.full()
+	for at, v := range vals {
+		f := AtomF(at)
+		if !v {
+			f = Not(f)
+		}
+		s = q.Filter(s, f)
+	}
+	return s
 }
